@@ -167,6 +167,7 @@ type scn struct {
 	errs    int
 	same    int
 	hist    map[string]int
+	held    []crypto.PrivateKey // keys handed out earlier in this scenario; a caller keeps using them
 }
 
 func makeKey(scheme int, seed []byte) (crypto.PrivateKey, error) {
@@ -232,9 +233,29 @@ func (s *scn) try(f func() (crypto.PrivateKey, error)) outcome {
 		return outcome{kind: oDiff, detail: fmt.Sprintf("returned key is unusable: %v", val)}
 	}
 	if ok {
+		if len(s.held) < 256 {
+			s.held = append(s.held, pk)
+		}
 		return outcome{kind: oSame}
 	}
 	return outcome{kind: oDiff, detail: why}
+}
+
+// stillSame: a key that was handed out stays that key while later reads, failed decryptions and
+// other keys' decryptions go on (a caller such as UnlockKeys holds several at once).
+func (s *scn) stillSame(after string) {
+	for i, pk := range s.held {
+		var ok bool
+		var why string
+		if _, val, p := guard(func() { ok, why = s.compare(pk) }); p {
+			ok, why = false, fmt.Sprintf("key became unusable: %v", val)
+		}
+		if !ok {
+			s.violate(0, "different-key", "returned-key-changed-later", "key #%d returned earlier by a successful decryption no longer is that key after %s: %s", i, after, why)
+			return
+		}
+	}
+	s.k.Probes["held-keys-rechecked"] += len(s.held)
 }
 
 type refFile struct {
@@ -372,11 +393,18 @@ func runKeyfile(k *kernel.K) {
 	s.ct = ct
 
 	s.intact()
+	s.stillSame("intact")
 	s.wrongPasswords()
+	s.stillSame("wrongPasswords")
 	s.truncations()
+	s.stillSame("truncations")
 	s.flips()
+	s.stillSame("flips")
 	s.rawCiphertext()
+	s.stillSame("rawCiphertext")
 	s.typeSwap()
+	s.stillSame("typeSwap")
+	s.otherKeys(k.Bytes(32, "other-key-material"))
 
 	s.count("decrypt-errors", s.errs)
 	s.count("same-key-results", s.same)
@@ -717,4 +745,38 @@ func (s *scn) typeSwap() {
 		s.k.Probe(name)
 	}
 	s.k.Event("type-swap", "Type field rewritten to the 2 other schemes (counted in probes only)")
+}
+
+// (7) other keys are written and read while the keys returned so far are still held (what
+// UnlockKeys does with several key files): each of them round-trips and none of the held ones changes.
+func (s *scn) otherKeys(seed []byte) {
+	for sch := range schemes {
+		k2, err := makeKey(sch, seed)
+		if err != nil {
+			continue
+		}
+		want := append([]byte{}, k2.Encode()...)
+		path := filepath.Join(s.dir, fmt.Sprintf("other-%d.json", sch))
+		pw := []byte("other-" + schemes[sch])
+		var werr error
+		var got crypto.PrivateKey
+		var rerr error
+		if site, val, p := guard(func() {
+			if werr = keystore.EncryptAndWriteToFile(path, k2, pw); werr == nil {
+				got, rerr = keystore.ReadFromFileAndDecrypt(path, pw)
+			}
+		}); p {
+			s.violate(3, "panic", "panic@"+site, "second key file: panic in gossamer code: %v at %s", val, site)
+			continue
+		}
+		if werr != nil || rerr != nil || got == nil {
+			s.violate(2, "round-trip", "second-key-file-rejected", "a second %s key file written and read with its own password failed: write=%v read=%v", schemes[sch], werr, rerr)
+			continue
+		}
+		if !bytes.Equal(got.Encode(), want) {
+			s.violate(0, "different-key", "different-key/second-key-file", "a second %s key file read back as a different key", schemes[sch])
+		}
+		s.stillSame("reading a second " + schemes[sch] + " key file")
+		s.k.Probes["second-key-files"]++
+	}
 }
